@@ -178,6 +178,9 @@ def lock_summaries(mir):
     P[r'DB::memtable'] = reader('memtable', lambda: Opaque('memtable'))
     P[r'VersionSet::get_current_version'] = reader('current version', lambda: Opaque('version'))
     P[r'VersionSet::get_prev_sequence_number'] = reader('last published sequence', lambda: BitVec('prev_seq', 64))
+    def new_snapshot(se, env, pc, sl, seq):
+        add(env, ('register snapshot', seq)); return [(None, Opaque('snapshot'), env['$state'])]
+    P[r'SnapshotList::new_snapshot'] = new_snapshot
     def on_call(se, env, raw, vals):
         if re.match(r'parking_lot::lock_api::Mutex::<.*GuardedDbFields>::lock$', raw):
             evs = env['$state']['events']
@@ -252,6 +255,50 @@ def o5_1_reads_under_mutex(mir, tier):
     res.wall_s = time.time() - t0
     if res.violations: res.status = 'violation'
     return res
+
+
+def o5_5_snapshot_capture(mir, tier):
+    """DB::get_snapshot: the sequence number a snapshot is registered with is read and registered in ONE critical section of the
+    database mutex (otherwise a write plus a compaction can slip in between: the compaction does not know of the snapshot yet and
+    drops the entries it is about to pin), and it is the last published sequence number."""
+    res = Result('O5.5 a snapshot is registered in the critical section in which its sequence number is read', ['DB::get_snapshot'],
+                 'lock events from Mutex::lock / MutexGuard::unlocked_fair / guard drops; SnapshotList::new_snapshot and VersionSet::get_prev_sequence_number by contract (events)')
+    t0 = time.time()
+    seen = set()
+    def on_path(ex, ret, evs, pc):
+        kinds = [e[0] if e[0] != 'read' else 'read ' + e[1] for e in evs]
+        regs = [i for i, e in enumerate(evs) if e[0] == 'register snapshot']
+        reads = [i for i, e in enumerate(evs) if e[0] == 'read' and e[1] == 'last published sequence']
+        posts = []
+        posts.append(('get_snapshot does not register exactly one snapshot', len(regs) == 1))
+        if len(regs) == 1:
+            r = regs[0]
+            posts.append(('the snapshot is registered without the database mutex', held_at(evs, r)))
+            before = [i for i in reads if i < r]
+            posts.append(('the snapshot is registered with something else than the last published sequence number', bool(before) and is_bv(evs[r][1]) and str(evs[r][1]) == 'prev_seq'))
+            if before:
+                i = before[-1]
+                same_section = held_at(evs, i) and not any(e[0] in ('unlock', 'lock', 'relock') for e in evs[i:r])
+                posts.append(('the database mutex is released between reading the sequence number of a snapshot and registering the snapshot (a write and a compaction in between drop what the snapshot is about to pin)', same_section))
+        res.checked += len(posts)
+        res.cases[' '.join(kinds)[:150]] = res.cases.get(' '.join(kinds)[:150], 0) + 1
+        for label, ok in posts:
+            if not ok and label not in seen:
+                seen.add(label)
+                res.violations.append({'label': label, 'events': kinds, 'replay': ['snapshot_interleave']})
+    ex, fn = run_db_method(mir, 'get_snapshot', lambda: [], on_path)
+    res.absorb(ex)
+    res.wall_s = time.time() - t0
+    if res.violations: res.status = 'violation'
+    return res
+
+
+def o5_5_confirm(v, out):
+    """Native: a logger parks the thread inside get_snapshot at its first log record (if any) while the key is overwritten and the
+    whole range compacted; the snapshot must still read a value of its state."""
+    if out.get('_rc') != 0: return (False, 'native run failed: %s' % out.get('_stderr', '')[-300:])
+    got = out.get('snapshot_read', '')
+    return (got not in ('v1', 'v2'), 'forced interleaving (a put and a full compaction while get_snapshot is between its steps; interleaved: %s): the snapshot reads %s' % (out.get('interleaved'), got))
 
 
 def o5_1_confirm(v, out):
